@@ -113,8 +113,10 @@ struct Run {
   uint64_t started = 0;                  // queue operations ever started
   std::vector<OpRec> pushed, popped;
   uint64_t push_done = 0, pop_done = 0;  // elements whose push / pop callback finished
+  std::vector<std::vector<uint64_t>> fill_time;   // per slot: virtual time at which each push callback on it finished
+  size_t base_round = 0;
 
-  explicit Run(size_t c) : q(c), cap(q.capacity()), busy(cap, 0) {}
+  explicit Run(size_t c) : q(c), cap(q.capacity()), busy(cap, 0), fill_time(cap) {}
 
   size_t slot_of(const P* p) { return ((const char*)p - (const char*)&q._slots._slots[0]) / sizeof(typename Q::Slot); }
 
@@ -137,6 +139,7 @@ struct Run {
     t.set(v);
     busy[s]--;
     ++push_done;
+    fill_time[s].push_back(vrt_now());
     vrt_event("cbe %lu", (unsigned long)v);
   }
   void cb_pop1(Ctx& c, P& t) {
@@ -164,6 +167,7 @@ struct Run {
     }
     if (n > 0) sched_yield();
     for (size_t i = 0; i < n; ++i) busy[s + i]--;
+    for (size_t i = 0; i < n; ++i) fill_time[s + i].push_back(vrt_now());
     push_done += n;
     vrt_event("cbe%s", vs.c_str());
   }
@@ -358,6 +362,8 @@ struct Run {
     struct timespec ts {(time_t)(timeout_ns / 1000000000ull), (long)(timeout_ns % 1000000000ull)};
     Win w = enter();
     uint64_t t0 = vrt_now();
+    size_t idx0;                       // plain read of the dispenser (this consumer is exclusive): not an atomic operation
+    memcpy(&idx0, (const void*)&q._next_pop_index, sizeof idx0);
     vrt_event("call timed_pop_n %d %zu %lu", K, num, (unsigned long)timeout_ns);
     size_t n = 0;
     if (K) n = q.template try_pop_n_exclusively_until<true>([&](It b, It e) { cb_popn(c, b, e); }, num, &ts);
@@ -373,6 +379,18 @@ struct Run {
     size_t avail = (size_t)(w.push_done0 - w.pop_done0);
     if (alone && n < std::min(num, avail))
       vrt_event("ORACLE try-unjustified timed pop returned %zu of %zu with %zu queued and no overlapping operation", n, num, avail);
+    // woken by the producer that fills the awaited slot: the call sleeps on the slot of ticket idx0 + num; once the push
+    // callback of that ticket has finished (its release + wake-up follow without virtual delay) the call must return
+    // promptly, not at its deadline
+    {
+      size_t tk = idx0 + num, sl = tk & (cap - 1), ord = tk / cap - base_round;   // ord-th fill (0-based) of that slot
+      if (ord < fill_time[sl].size()) {
+        uint64_t ta = std::max(fill_time[sl][ord], t0);
+        if (t1 > ta + 100000)
+          vrt_event("ORACLE timed-unwoken timed pop returned %lu ns after the awaited slot was filled (timeout %lu ns)",
+                    (unsigned long)(t1 - ta), (unsigned long)timeout_ns);
+      }
+    }
     return n;
   }
 
@@ -437,6 +455,7 @@ size_t preset_round(Run<P>& R, Rng& rng, int pct) {
   R.q._next_pop_index.store(round * R.cap, std::memory_order_relaxed);
   for (size_t i = 0; i < R.cap; ++i)
     R.q._slots.futex(i)._futex.value().store((uint16_t)(2 * round), std::memory_order_relaxed);
+  R.base_round = round;
   return round;
 }
 
@@ -445,6 +464,9 @@ template <typename P>
 void run_mix(uint64_t seed, int words) {
   Rng rng(seed);
   int bits = (int)rng.below(4);
+  // style 3: blocking futex-waiting pushers run ahead of delayed consumers on a tiny queue (pushers must SLEEP on full slots)
+  int style = rng.coin(40) ? 1 + (int)rng.below(3) : 0;
+  if (style == 3 && bits > 1) bits = (int)rng.below(2);
   Run<P> R((size_t)1 << bits);
   name_queue(R);
   int nprod = 1 + (int)rng.below(4), ncons = 1 + (int)rng.below(4);
@@ -453,13 +475,13 @@ void run_mix(uint64_t seed, int words) {
   // style 1: one exclusive (CONCURRENT=false) producer issuing mostly large try_push_n batches against 2-3 consumers
   // popping one element at a time (pops complete out of order, so a batch crossing the ring end meets a hole);
   // style 2: the mirror image for try_pop_n
-  int style = rng.coin(30) ? 1 + (int)rng.below(2) : 0;
   if (style == 1) { nprod = 1; ncons = 2 + (int)rng.below(2); }
   if (style == 2) { ncons = 1; nprod = 2 + (int)rng.below(2); }
   if (style) total = 2 * R.cap + 1 + rng.below(3 * R.cap + 2);
-  size_t round = preset_round(R, rng, 40);
+  size_t round = preset_round(R, rng, style == 3 ? 70 : 40);
   if (round && total < 2 * R.cap + 2) total = 2 * R.cap + 2 + rng.below(2 * R.cap + 2);   // cross the version wrap
   bool push_wake_all = rng.coin(70), pop_wake_all = rng.coin(70);
+  if (style == 3) { pop_wake_all = true; total = 2 * R.cap + 2 + rng.below(4); }
   auto pq = split(rng, total, nprod), cq = split(rng, total, ncons);
   vrt_begin(seed);
   printf("RUN %lu bits=%d P=%d mode=mix prod=%d cons=%d total=%zu pushwake=%d popwake=%d base=%zu style=%d\n", (unsigned long)seed, bits,
@@ -483,6 +505,9 @@ void run_mix(uint64_t seed, int words) {
           if (r.coin(75)) { kind = 3; n = std::min(left, R.cap - r.below(R.cap / 2 + 1)); }
         } else if (style == 2) {
           if (r.coin(70)) kind = (int)r.below(2);
+        } else if (style == 3) {
+          W = true;
+          kind = r.coin(70) ? 0 : 2;
         }
         std::vector<uint64_t> vs;
         switch (kind) {
@@ -516,7 +541,9 @@ void run_mix(uint64_t seed, int words) {
     ts.emplace_back([&, tseed, quota] {
       Rng r(tseed);
       size_t left = quota;
+      if (style == 3) usleep(200 + (useconds_t)r.below(2000));   // let the pushers fill the queue and fall asleep
       while (left > 0) {
+        if (style == 3 && r.coin(60)) usleep(50 + (useconds_t)r.below(500));
         bool C = ncons > 1 ? true : r.coin(50);
         bool W = push_wake_all ? r.coin(60) : false;
         bool K = pop_wake_all ? true : r.coin(40);
